@@ -224,6 +224,15 @@ func Groups(opts []cat.Opts, cb bool) []*cat.Catalog {
 			"d2": dec("a", []cat.Param{par("T2@g", "grp", 1), par("T3", "req", 1)}, cat.Result{Ks: []string{"T2@g"}, M: "grp", N: 2, O: 1}, cat.Result{Ks: []string{"T3"}, M: "one", O: 1}),
 		}
 	})
+	// an outer decorator of the group that also needs T1 - the output of c3, which consumes the
+	// group itself: while the outer decorator waits for T1, c3 is handed the group as the inner
+	// decorator (one scope further down) makes it, the outer one being skipped
+	decVariants = append(decVariants, func() map[string]*cat.Fn {
+		return map[string]*cat.Fn{
+			"d1": dec("r", []cat.Param{par("T2@g", "grp", 1), par("T1", "req", 1)}, cat.Result{Ks: []string{"T2@g"}, M: "grp", N: 1, O: 1}),
+			"d2": dec("a", []cat.Param{par("T2@g", "grp", 1)}, cat.Result{Ks: []string{"T2@g"}, M: "grp", N: 2, O: 1}),
+		}
+	})
 	for _, p1 := range places() {
 		for pi2, p2 := range places() {
 			for _, gm := range []string{"grp", "soft"} {
@@ -241,6 +250,9 @@ func Groups(opts []cat.Opts, cb bool) []*cat.Catalog {
 						c.Fns["i3"] = inv(par("T2@g", "soft", 1), par("T3", "req", 1))
 						for id, f := range mk() {
 							c.Fns[id] = f
+						}
+						if di == len(decVariants)-1 {
+							c.Fns["c3"].Exp = s3 != "r" // the outer decorator has to see c3
 						}
 						c.Note = fmt.Sprintf("groups c1=%v c2=%v gm=%s c3=%s dec=%d", p1, p2, gm, s3, di)
 						out = append(out, finish(c, opts, cb))
@@ -367,10 +379,12 @@ func DecPairs(opts []cat.Opts, cb bool) []*cat.Catalog {
 }
 
 // Gaps is the motif of a missing dependency far below an optional edge:
-//   c1: (T5 req|opt) -> member of T2@g     (T5 is provided by c4, or by nobody)
-//   c2: ([]T2@g hard|soft, in an object or not) -> T0
-//   c3: (T0 req|opt) -> T1
-//   i1: (T1 opt)   i2: (T0 opt)   i3: (T1 req)   i4: (T1 opt, []T2@g)
+//
+//	c1: (T5 req|opt) -> member of T2@g     (T5 is provided by c4, or by nobody)
+//	c2: ([]T2@g hard|soft, in an object or not) -> T0
+//	c3: (T0 req|opt) -> T1
+//	i1: (T1 opt)   i2: (T0 opt)   i3: (T1 req)   i4: (T1 opt, []T2@g)
+//
 // plus, optionally, a decorator of T0 or of the group that needs T6, which nobody provides.
 // An optional edge tolerates exactly the failures that are a dependency somebody did not
 // provide - through single values, through value groups and through decorators alike - and
@@ -407,6 +421,11 @@ func Gaps(opts []cat.Opts, cb bool) []*cat.Catalog {
 								if t5 != "" {
 									c.Fns["c4"] = ctor(Place{t5, false}, nil, one("T5"))
 								}
+								if c.Fns["c2"].Scope == "a" && (pi1+len(m3))%2 == 0 {
+									// the root provides T0 as well: from "a" downwards it is shadowed by
+									// c2, and stays shadowed when c2 cannot be built
+									c.Fns["c5"] = ctor(Place{"r", false}, nil, one("T0"))
+								}
 								c.Fns["i1"] = inv(par("T1", "opt", 1))
 								c.Fns["i2"] = inv(par("T0", "opt", 1))
 								c.Fns["i3"] = inv(par("T1", "req", 0))
@@ -419,6 +438,9 @@ func Gaps(opts []cat.Opts, cb bool) []*cat.Catalog {
 								ord := []string{"c1", "c2", "c3"}
 								if t5 != "" {
 									ord = append(ord, "c4")
+								}
+								if c.Fns["c5"] != nil {
+									ord = append(ord, "c5")
 								}
 								rot := (pi1 + di + len(m1) + len(gm)) % len(ord)
 								c.Order = append(append([]string(nil), ord[rot:]...), ord[:rot]...)
